@@ -27,6 +27,8 @@ func genFault(c *Case, r *simrt.Rand, tier string) {
 	cfg.idleW = 25
 	cfg.kids = 0.3
 	cfg.idle = 0
+	cfg.merges = 0.4
+	cfg.concerns = []int{0, 1, 1, 1, 2}
 	genSingle(c, r, cfg)
 	c.Opts.KeepFiles = false
 	c.Prog = append(c.Prog, Op{Kind: "stopFaults"}, Op{Kind: "catchup"}, Op{Kind: "verify"})
